@@ -217,6 +217,13 @@ def run(tier, seed):
             v.failures([f for f in fails if f['clause'] == 'CountsOK'])
             v.count('fixparams_cases', cnt.get('cases', 0))
         cov['fixparams_transitions_replayed'] = v.counters.get('fixparams_cases', 0)
+        # names, IDs and counts of the filter posterior (block layout [population | sigma | eta | epsilon], one or two
+        # observables): the shared run of module FilterPosterior (see C13), judged on its names / counts clauses
+        from . import check_c13
+        fp = cached('filterposterior', tier, seed, lambda: check_c13._compute(tier, seed))
+        for fails, cnt in fp['results']:
+            v.failures([f for f in fails if f['clause'] in ('NamesIds', 'FP_Counts')])
+            v.count('filterposterior_cases', cnt.get('cases', 0))
         # names of the covariate parameters after set_population_parameters (any selection, 1-2 covariates): the shared run
         # of module CovSel (see C07), judged on its names clause
         from . import check_c07
